@@ -5,7 +5,7 @@ import c06
 
 
 def main(tier):
-    c06.run('C07', tier, r'^(frame-|window-)', 'one write through the real Mapper from every machine state; a second, fully symbolic address (the whole 64 KiB) read before and after: it may differ only where the documented effect relation allows',
+    c06.run('C07', tier, r'^(frame-|window-|div|tima|tma|tac|irq|relation)', 'one write through the real Mapper from every machine state; a second, fully symbolic address (the whole 64 KiB) read before and after: it may differ only where the documented effect relation allows',
             {'write address': 'configuration: each plain range (symbolic address inside it) and each of the 49 I/O registers; value symbolic',
              'observed address': 'symbolic over the whole 64 KiB in every query (universally quantified)',
              'state': 'every component arbitrary under its invariant',
